@@ -137,13 +137,16 @@ def level_sets():
     S["coinciding-tempo-events"] = [(1, 1, [None, B("a")]), (1, 1, [None, None, B("b"), None]), (0, 2, [N("hit")]), (2, 2, [N("hit"), None]), (3, 4, [None, N("hit")])]
     S["large-sample-ids"] = [(0, 2, [N("hit", value=0x8001), None, N("hit", value=0xFFFF), None]), (1, 3, [N("head", value=0x9000), None]), (2, 3, [None, N("tail", value=0x8000)]),
                              (1, 1, [B("a")])]
+    S["odd-slot-counts"] = [(0, 2, [N("hit") if j in (1, 4) else None for j in range(5)]), (1, 3, [N("head") if j == 3 else None for j in range(7)]),
+                            (2, 3, [N("tail") if j == 7 else None for j in range(10)]), (1, 1, [B("a") if j == 13 else None for j in range(20)]),
+                            (3, 4, [N("hit") if j == 101 else None for j in range(256)])]
     S["empty"] = []
     return S
 
 
 def random_level(rng):
     """a generated difficulty: hits / one long note per column on distinct (measure, slot) positions, 0-3 tempo events, packages in random file order"""
-    divs = (1, 2, 3, 4, 6, 8, 12, 16, 192)
+    divs = (1, 2, 3, 4, 5, 6, 7, 8, 10, 12, 16, 20, 128, 192)
     pk = []
     names = iter("abc")
     for _ in range(rng.randint(0, 3)):
